@@ -187,6 +187,7 @@ def run_once(cfg, total, resume, outdir, known_dirs):
     old_cwd = os.getcwd()
     os.chdir(scratch)
     stale = getattr(M, "_output_directory", None) is not None
+    stale_all = getattr(M, "_save_strategy", None) == "all"
     depth0 = len(R._sseq)
     ids0 = ([id(x) for x in R._sseq], [id(x) for x in R._rng])
     states0 = [copy.deepcopy(g.bit_generator.state) for g in R._rng]
@@ -214,7 +215,7 @@ def run_once(cfg, total, resume, outdir, known_dirs):
     o = {"err": None if err is None else "%s: %s" % (type(err).__name__, str(err)[:100]),
          "code": 0 if err is None else (1 if isinstance(err, ValueError) else 2 if isinstance(err, AssertionError)
                                         else 3 if isinstance(err, UnboundLocalError) else 4 if isinstance(err, FileNotFoundError) else 5),
-         "depth0": depth0, "depth1": len(R._sseq), "last0": last0, "stale": stale, "first": rec.first,
+         "depth0": depth0, "depth1": len(R._sseq), "last0": last0, "stale": stale, "stale_all": stale_all, "first": rec.first,
          "files0": sorted(files0), "files1": sorted(listing(outdir)), "acts": rec.acts,
          "same_objects": ([id(x) for x in R._sseq[:depth0]], [id(x) for x in R._rng[:depth0]]) == ids0,
          "same_states": [g.bit_generator.state for g in R._rng[:depth0]] == states0}
@@ -279,8 +280,8 @@ def check_term(cfg, total, resume, outdir, o):
     fo = [file_coq(f) for f in o["foreign"]]
     if None in f0 or None in f1 or None in fo:
         return None
-    env = "(mkEnv %d %s %s %d %s)" % (o["depth0"], C.clist(f0), C.copt(o["last0"], lambda x: "%d" % x),
-                                      o["depth0"], C.cbool(o["stale"]))
+    env = "(mkEnv %d %s %s %d %s %s)" % (o["depth0"], C.clist(f0), C.copt(o["last0"], lambda x: "%d" % x),
+                                         o["depth0"], C.cbool(o["stale"]), C.cbool(o["stale_all"]))
     if o["code"] == 0:
         shape = "(%s, %d, %s, %d)" % (C.cbool(o["tuple"]), o["n"], C.cbool(o["residual"]), o["depth1"])
     else:
